@@ -47,7 +47,9 @@ add("C06", "in-memory fold oracle over executions of one record multiset; partit
     "many partitions, chunk orders, mergebuf values from 1 and max_merge values from 1 (single-pass and two-pass), "
     "sorted or ensure_sorted; the raw pixel table of every execution must equal one exact in-memory fold. Probes "
     "check that merge_breakpoints is a strictly increasing partition and that merge epochs are sorted, duplicate-free "
-    "and disjoint. A sys.addaudithook on tempfile.mkstemp plus a fresh-directory listing decide the temp-file clause.",
+    "and disjoint. A sys.addaudithook on tempfile.mkstemp plus a fresh-directory listing decide the temp-file clause. "
+    "CLI shards run `cooler cload pairs` with value fields and aggregates over --chunksize 1..>n and compare with the "
+    "aggregate over all records of each pixel (non-sum aggregates: known finding F33).",
     "DESIGN.md section 4 C06")
 add("C07", "fold-of-generated-dicts oracle over merge executions (orders x buffers x aggregations x nesting); refusal and overflow drivers",
     "Input coolers (1..5, incl. empty, identical/disjoint supports, mixed int/float value dtypes) are merged by the real "
@@ -106,7 +108,8 @@ add("C18", "before/after snapshots and raw digests over renaming chains, on the 
     "back, reused names) are applied with rename_chroms; after every step names, chromosome table, bin labels and "
     "categories, every per-chromosome query (extent, bins/pixels/matrix fetch, balanced, two-region) under the mapped "
     "names, rejection of dropped names, the raw digest of all non-name data and schema validity are checked on the "
-    "same object and on a fresh Cooler.",
+    "same object (path-, option- and handle-backed; selectors made before the rename) and on a fresh Cooler; chains "
+    "through alternating cells of a single-cell file are judged for the cell the rename went through.",
     "DESIGN.md section 4 C18")
 add("C13", "fault enumeration: invalid records x every chunk/position, iterator exceptions before every chunk, sys.monitoring LINE failpoints at every executed writer line, os._exit at chunk boundaries; raw-digest neighbour oracle",
     "Destinations of six kinds (new file root/nested, root of a populated non-cooler file, new group, existing empty "
@@ -123,7 +126,8 @@ add("C15", "inode-like FileModel replayed alongside random operation histories; 
     "files (API and CLI, URIs with and without leading slash) are executed on real files while a small model tracks "
     "names -> objects -> content; after every step the listing, each path's raw content digest, object-address "
     "sharing of hard links vs copies, is_cooler on collection / foreign / dataset / missing-group / missing-file / "
-    "non-HDF5 paths, `cooler ls`, and unrelated attributes/groups/datasets are compared with the model.",
+    "non-HDF5 paths, `cooler ls`, and unrelated attributes/groups/datasets are compared with the model. Moves to the "
+    "other file, and cp / mv of a root collection onto the free root of a populated file, are history steps too.",
     "DESIGN.md section 4 C15")
 add("C16", "parsed-CLI-output vs reference rows over option vectors; dump->load round-trip digests; column-layout permutation driver",
     "`cooler dump` is run (in-process CliRunner and a sample through a real subprocess) on generated coolers over random "
